@@ -30,7 +30,9 @@ CLAIMS = {
         text="Strings and names only, by composition: (a) for every byte string up to the bound the token PdfString::serialize "
              "writes is decoded to the same bytes by a reference literal/hex string decoder, and for every ASCII name of 1-2 characters "
              "(and every 2-byte UTF-8 character) serialize_name writes a token of regular characters whose #xx decoding is the name; "
-             "serialising never panics; (b) the real string lexers agree with the same reference decoders (C03 obligations strlex_*). "
+             "serialising never panics; (b) the real string lexers agree with the same reference decoders (C03 obligations strlex_*); "
+             "(c) for the one byte class the references leave open -- a raw CR inside a literal string -- writer and reader are "
+             "checked against each other: if the writer emits CR raw, one reader step at a raw CR returns CR from every lexer state. "
              "Numbers, arrays, dictionaries, streams and the '#xx' decoding inside the object parser are Out.",
         design_ref="§5 C04", note=NOTE, technique=BMC + " (serializer vs reference decoder; composition with the lexer-vs-reference obligations)"),
     "C05": dict(
@@ -72,6 +74,10 @@ CLAIMS = {
         text="Numeric-extreme clause on the kernels that can be encoded: arbitrary usize object-stream offsets, xref-stream field "
              "widths / counts (incl. /W [0 0 0]), byte_len, read_u64 widths, ragged predictor rows, short AES data: each returns a "
              "value or an error for EVERY value of the numeric fields -- no panic, no unbounded loop (unwinding assertions). "
+             "Function objects: the PostScript calculator PsFunc::exec on stacks of 0..3 numbers (every operator; 'index' for every "
+             "f32 operand; 'roll' for every small concrete count/amount shape with symbolic values and for every f32 count beyond "
+             "the stack) and SampledFunction::apply with 1 and 2 inputs for every f32 /Domain, /Encode, /Decode, u32 /Size and "
+             "argument: a value or an error. "
              "Reference cycles through typed loading, /Prev loops, parser nesting depth and symbolic predictor geometry are Out "
              "(measured: out of memory).",
         design_ref="§5 C14", note=NOTE, technique=BMC),
@@ -79,8 +85,9 @@ CLAIMS = {
         text="ASCIIHex: decode_hex(encode_hex(d)) == d and the output is accepted with the same result by the reference decoder, "
              "for all d up to the bound. ASCII85: the encoder's output for every input up to the bound is accepted by a reference "
              "decoder (written from the Adobe definition) and yields the input, and decode_85 agrees with that reference decoder "
-             "on every such text -- composition gives the round trip; word_85 inverts the base-85 digits for all 2^40 groups. "
-             "Flate and LZW encoders are Out.",
+             "on every such text -- composition gives the round trip; word_85 inverts the base-85 digits for all 2^40 groups; "
+             "concrete word shapes around the all-zero shorthand 'z' with one symbolic byte. "
+             "Flate and LZW encoders are Out (the deflate compressor over symbolic data is not encodable).",
         design_ref="§5 C16", note=NOTE, technique=BMC_M),
     "C18": dict(
         text="Option reader only: for the scalar readers (i32, f32, bool, Name, Rectangle) and for RcRef / MaybeRef, an optional "
@@ -93,8 +100,10 @@ CLAIMS = {
     "C19": dict(
         text="Width table only: one insertion step from every table state of the bounded family (first_char 0..5, 0..3 entries, "
              "code 0..8; entries, default and width symbolic) sets exactly the inserted code and leaves every other code unchanged, "
-             "hence insertion order cannot matter; get() is the simple-font rule for every first_char/code in usize. /W array "
-             "interpretation and ToUnicode character maps are Out.",
+             "hence insertion order cannot matter; get() is the simple-font rule for every first_char/code in usize; one array-form "
+             "/W group applied as Font::widths applies it (ensure_cid, then set per element) on 6 concrete table/group shapes. "
+             "ToUnicode: only the code tokens -- write_cid writes '<HHHH>' for every u16, parse_cid reads 1- and 2-byte codes big "
+             "endian. /W array interpretation inside Font::widths and character maps at map level (write_cmap, parse_cmap) are Out.",
         design_ref="§5 C19", note=NOTE, technique=BMC),
 }
 
